@@ -27,6 +27,11 @@ def evaluate(seed, wt, props, tier='quick'):
     res['demo_clean'] = rc
     rc, out = sh(['git', 'apply', os.path.join(seed, 'patch.diff')], cwd=wt)
     if rc:
+        # the seed was written against an earlier HEAD of /repo (a later fix: commit touched the same file): 3-way merge
+        rc, out = sh(['git', 'apply', '--3way', os.path.join(seed, 'patch.diff')], cwd=wt)
+        sh(['git', 'reset', '-q'], cwd=wt)
+        res['applied_3way'] = True
+    if rc:
         res['error'] = 'patch does not apply: ' + out[-300:]
         return res
     try:
